@@ -5,9 +5,12 @@ import FH.RuleA64
 (`x86_64/dwarf.rs`, `aarch64/dwarf.rs`, `dwarf.rs::eval_cfa_rule / eval_register_rule`)
 
 A row is what gimli hands to framehop: the CFA rule and the rules of the two registers
-framehop looks at. DWARF expressions are not modelled (`RegRule.other`, `CfaRule.expr`
-evaluate to "unknown", as the Rust code's `_ => None` arms do for rules it does not
-support); rows with expressions are exercised on the implementation only.
+framehop looks at. Of DWARF expressions the single-operation form `DW_OP_breg<r> offset` is
+modelled in all three places it can occur (CFA expression, `DW_CFA_expression`,
+`DW_CFA_val_expression`), i.e. the whole of framehop's own `eval_expr` driver loop
+(`RequiresRegister` answered from the unwind registers, anything else gives up); other
+expressions (`RegRule.other`, `CfaRule.expr`) evaluate to "unknown", as the Rust code's
+`_ => None` arms do - the harness writes them as expressions that need a memory read.
 -/
 namespace FH
 
@@ -19,6 +22,9 @@ inductive DReg where
 inductive CfaRule where
   | regOff (reg : DReg) (off : Int)
   | expr
+  /-- `DW_CFA_def_cfa_expression {DW_OP_breg<reg> off}`: the value `reg + off`, computed by the
+  expression evaluator (`eval_expr`); never compressed into a rule. -/
+  | exprRegOff (reg : DReg) (off : Int)
   deriving DecidableEq, Repr, Inhabited
 
 inductive RegRule where
@@ -28,6 +34,10 @@ inductive RegRule where
   | valOffset (n : Int)
   | register (r : DReg)
   | other
+  /-- `DW_CFA_expression {DW_OP_breg<reg> off}`: saved at the address `reg + off`. -/
+  | exprReg (reg : DReg) (off : Int)
+  /-- `DW_CFA_val_expression {DW_OP_breg<reg> off}`: the value `reg + off`. -/
+  | valExprReg (reg : DReg) (off : Int)
   deriving DecidableEq, Repr, Inhabited
 
 /-- `cfa`, rule of the frame pointer register (rbp / x29), rule of the return address
@@ -43,10 +53,13 @@ def InI64 (n : Int) : Prop := -9223372036854775808 ≤ n ∧ n < 922337203685477
 def CfaRule.WF : CfaRule → Prop
   | .regOff _ off => InI64 off
   | .expr => True
+  | .exprRegOff _ off => InI64 off
 
 def RegRule.WF : RegRule → Prop
   | .offset n => InI64 n
   | .valOffset n => InI64 n
+  | .exprReg _ off => InI64 off
+  | .valExprReg _ off => InI64 off
   | _ => True
 
 def Row.WF (r : Row) : Prop := r.cfa.WF ∧ r.fp.WF ∧ r.ra.WF
@@ -154,6 +167,14 @@ inductive GenOut (R : Type) where
   pe-unwind-info's unchecked arithmetic). -/
   | panic (s : Site)
 
+/-- gimli's evaluation of `DW_OP_breg<reg> off` as driven by `eval_expr`: the register value
+(`RequiresRegister`, answered from `DwarfUnwindRegs::get`) plus the offset, *wrapping* in 64 bits
+(gimli's generic-type arithmetic), as an address. -/
+def evalBreg (get : DReg → Option Nat) (reg : DReg) (off : Int) : Option Nat :=
+  match get reg with
+  | none => none
+  | some v => some (wrappingAddSigned v off)
+
 /-- `eval_cfa_rule` given the architecture's `DwarfUnwindRegs::get`. -/
 def evalCfa (get : DReg → Option Nat) : CfaRule → Option Nat
   | .regOff reg off =>
@@ -161,6 +182,7 @@ def evalCfa (get : DReg → Option Nat) : CfaRule → Option Nat
     | none => none
     | some v => caddSigned v off
   | .expr => none
+  | .exprRegOff reg off => evalBreg get reg off
 
 /-- `eval_register_rule`. -/
 def evalRegRule (get : DReg → Option Nat) (mem : Mem) (rule : RegRule) (cfa val : Nat) : Option Nat :=
@@ -174,6 +196,11 @@ def evalRegRule (get : DReg → Option Nat) (mem : Mem) (rule : RegRule) (cfa va
   | .valOffset n => caddSigned cfa n
   | .register r => get r
   | .other => none
+  | .exprReg reg off =>
+    match evalBreg get reg off with
+    | none => none
+    | some a => mem a
+  | .valExprReg reg off => evalBreg get reg off
 
 def getX64 (regs : RegsX64) : DReg → Option Nat
   | .ra => some regs.ip
